@@ -13,6 +13,7 @@ import rustscan as R
 REFUTATION = [
     ('postcondition not satisfied', 'post'),
     ('precondition not satisfied', 'pre'),
+    ('precondition not met', 'pre'),
     ('invariant not satisfied at end of loop body', 'inv-end'),
     ('invariant not satisfied before loop', 'inv-init'),
     ('loop invariant not satisfied', 'inv'),
@@ -53,6 +54,7 @@ class UnitResult:
         self.gen_path = None
         self.verified_count = 0
         self.samples = []
+        self.lost_hints = []
 
 
 def obligations_of(ex):
@@ -148,6 +150,7 @@ def run_unit(unit_path, repo, verif, workdir, threads=8, twin=True, log=None):
     res.functions = ex.functions
     res.rewrites = ex.rewrites
     res.dropped = ex.dropped
+    res.lost_hints = ex.lost_hints
     res.obligations = obligations_of(ex)
     gen = os.path.join(workdir, res.name.replace('-', '_').lower() + '.rs')
     open(gen, 'w').write(text)
@@ -176,27 +179,29 @@ def run_unit(unit_path, repo, verif, workdir, threads=8, twin=True, log=None):
            '--rlimit', str(rlimit), '--num-threads', str(threads)]
     res.cmd = ' '.join(cmd)
     procs = []
-    procs.append(subprocess.Popen(cmd, stdout=subprocess.PIPE, stderr=subprocess.PIPE, text=True))
+    procs.append(subprocess.Popen(cmd, stdout=subprocess.PIPE, stderr=subprocess.PIPE, text=True, start_new_session=True))
     twin_info = None
-    if twin:
-        twin_info = make_twin(text, spans, ex)
-        if twin_info:
-            tpath = gen[:-3] + '_twin.rs'
-            open(tpath, 'w').write(twin_info['text'])
-            tcmd = ['verus', tpath, '--output-json', '--time', '--multiple-errors', '1', '--error-format=json', '--rlimit', str(min(int(rlimit), 8)), '--num-threads', str(threads)]
-            procs.append(subprocess.Popen(tcmd, stdout=subprocess.PIPE, stderr=subprocess.PIPE, text=True))
-    out, err = procs[0].communicate()
+    timeout = int(getattr(ex, 'timeout', None) or os.environ.get('VERIF_VERUS_TIMEOUT', '420'))
+    timed_out = False
+    try:
+        out, err = procs[0].communicate(timeout=timeout)
+    except subprocess.TimeoutExpired:
+        timed_out = True
+        kill_tree(procs[0])
+        out, err = procs[0].communicate()
     if log:
         open(log, 'w').write(err)
     starts = [s[0] for s in spans]
     try:
         js = json.loads(out)
     except Exception:
-        res.status = 'undecided'
-        res.reason = 'verus produced no JSON: ' + err[-400:]
-        for p in procs[1:]:
-            p.kill()
-        return res
+        js = {}
+        if not timed_out:
+            res.status = 'undecided'
+            res.reason = 'verus produced no JSON: ' + err[-400:]
+            for p in procs[1:]:
+                kill_tree(p)
+            return res
     vr = js.get('verification-results', {})
     res.verified_count = vr.get('verified', 0)
     # per-function times
@@ -276,11 +281,19 @@ def run_unit(unit_path, repo, verif, workdir, threads=8, twin=True, log=None):
         f['obligation'] = ob
         f['src'] = src
         res.failed.append(f)
-    if hard_errors:
+    if timed_out and not res.failed:
+        res.status = 'undecided'
+        res.reason = 'verifier did not finish in %d s (killed)' % timeout
+    elif timed_out:
+        res.status = 'violation'
+        res.reason = 'verifier killed after %d s; refutations reported before that are kept' % timeout
+    elif hard_errors:
         res.status = 'undecided'
         res.reason = 'tool error (unsupported construct / compile error): ' + ' | '.join(hard_errors[:5])
     elif res.failed:
         res.status = 'violation'
+        if res.lost_hints:
+            res.reason = 'note: ' + '; '.join(res.lost_hints[:3])
         if rl:
             res.reason = 'also rlimit: ' + '; '.join(rl[:3])
     elif rl:
@@ -306,14 +319,36 @@ def run_unit(unit_path, repo, verif, workdir, threads=8, twin=True, log=None):
         n_ok += 1
     res.discharged = n_ok if res.status in ('ok', 'violation') else 0
     # twin
-    if twin and twin_info:
-        tout, terr = procs[1].communicate()
-        res.canary = check_twin(twin_info, tout, terr)
-        if res.status == 'ok' and not res.canary['ok']:
-            res.status = 'undecided'
-            res.reason = 'vacuity canary: ' + res.canary['why']
+    if twin and res.status == 'ok':
+        twin_info = make_twin(text, spans, ex)
+        if twin_info:
+            tpath = gen[:-3] + '_twin.rs'
+            open(tpath, 'w').write(twin_info['text'])
+            tcmd = ['verus', tpath, '--output-json', '--time', '--multiple-errors', '1', '--error-format=json', '--rlimit', str(min(int(rlimit), 8)), '--num-threads', str(threads)]
+            tp = subprocess.Popen(tcmd, stdout=subprocess.PIPE, stderr=subprocess.PIPE, text=True, start_new_session=True)
+            try:
+                tout, terr = tp.communicate(timeout=240)
+                res.canary = check_twin(twin_info, tout, terr)
+            except subprocess.TimeoutExpired:
+                kill_tree(tp)
+                tp.communicate()
+                res.canary = {'ok': True, 'inconclusive': True, 'why': 'must-fail twin did not finish in 240 s (no function was seen to prove its canary)'}
+            if not res.canary['ok']:
+                res.status = 'undecided'
+                res.reason = 'vacuity canary: ' + res.canary['why']
     res.wall = time.time() - t0
     return res
+
+
+def kill_tree(p):
+    import signal
+    try:
+        os.killpg(os.getpgid(p.pid), signal.SIGKILL)
+    except Exception:
+        try:
+            p.kill()
+        except Exception:
+            pass
 
 
 def make_twin(text, spans, ex):
